@@ -694,7 +694,15 @@ func TestC16HostilePeers(t *testing.T) {
 			}
 			S := fixture.New(p.Name)
 			defer S.Close()
-			if err := S.SetOption(mangos.OptionMaxRecvSize, L); err != nil {
+			// the limit is configured before listening, or changed (on the socket or on the
+			// listener) once the listener is up: it governs the connections made afterwards
+			limitWhen := rapid.SampledFrom([]string{"before", "before", "after-socket", "after-listener"}).Draw(t, "limitSet")
+			doc["limit_set"] = limitWhen
+			first := L
+			if limitWhen != "before" {
+				first = map[bool]int{true: 0, false: 1 << 20}[L != 0 && rapid.Bool().Draw(t, "wasUnlimited")]
+			}
+			if err := S.SetOption(mangos.OptionMaxRecvSize, first); err != nil {
 				t.Fatalf("harness: %v", err)
 			}
 			if p.Name == "sub" {
@@ -704,9 +712,22 @@ func TestC16HostilePeers(t *testing.T) {
 				_ = S.SetOption(mangos.OptionSurveyTime, 10*time.Second)
 			}
 			sev := fixture.Hook(S)
-			addr, _, err := fixture.Listen(S, tr)
+			addr, lst, err := fixture.Listen(S, tr)
 			if err != nil {
 				t.Fatalf("harness: %v", err)
+			}
+			switch limitWhen {
+			case "after-socket":
+				err = S.SetOption(mangos.OptionMaxRecvSize, L)
+			case "after-listener":
+				err = lst.SetOption(mangos.OptionMaxRecvSize, L)
+			}
+			if err != nil {
+				fail("limit-change-refused", "changing MAX-RCV-SIZE to %d after Listen (%s): %v", L, limitWhen, err)
+				return
+			}
+			if limitWhen != "before" {
+				stats.Class("limit_changed_after_listen")
 			}
 			// hostile peers that stay silent connect first
 			var conns []net.Conn
